@@ -197,6 +197,11 @@ TNext == \/ TRound \/ TTask \/ TRecv \/ TSet \/ TStart \/ TStop \/ TUpdate
 TSpec == TInit /\ [][TNext]_tvars
 
 TNoStale == NoStaleAdoption
-TNoRevisit == NoRevisit
+(* C03 on a trace: no input is adopted again after a different one was     *)
+(* adopted in between (re-adopting the current input - a subset whose nodes *)
+(* are already gone - is stuttering, finite by the partition structure)    *)
+TNoRevisit == \A i, j \in 1..Len(chain) :
+                 (i < j /\ chain[i] = chain[j]) =>
+                    \A k \in i..j : chain[k] = chain[i]
 
 =============================================================================
